@@ -129,7 +129,7 @@ class AlarmTime:
             return True
         if self._snooze_until is not None and self._snooze_until > acknowledged:
             return True
-        trigger = self.trigger
+        trigger = to_datetime(self.trigger)
         if trigger.tzinfo is None:
             raise LocalTimezoneMissing(
                 "A local timezone is required to check if the alarm is still active. "
@@ -143,8 +143,15 @@ class AlarmTime:
 
         If the alarm has been snoozed, this can differ from the TRIGGER property.
         """
-        if self._snooze_until is not None and self._snooze_until > self._trigger:
-            return self._snooze_until
+        if self._snooze_until is not None:
+            trigger = to_datetime(self._trigger)
+            if trigger.tzinfo is None:
+                raise LocalTimezoneMissing(
+                    "A local timezone is required to check if the alarm is snoozed. "
+                    "Use Alarms.set_local_timezone()."
+                )
+            if self._snooze_until > trigger:
+                return self._snooze_until
         return self._trigger
 
 
@@ -335,7 +342,7 @@ class Alarms:
     def _alarm_time(self, alarm: Alarm, trigger:date):
         """Create an alarm time with the additional attributes."""
         if getattr(trigger, "tzinfo", None) is None and self._local_tzinfo is not None:
-            trigger = normalize_pytz(trigger.replace(tzinfo=self._local_tzinfo))
+            trigger = normalize_pytz(to_datetime(trigger).replace(tzinfo=self._local_tzinfo))
         return AlarmTime(alarm, trigger, self._last_ack, self._snooze_until, self._parent)
 
     def _get_absolute_alarm_times(self) -> list[AlarmTime]:
